@@ -132,6 +132,20 @@ func (cs *State) catchupReplay(csHeight int64) error {
 		return err
 	}
 	if !found {
+		if endHeight > 0 && cs.state.LastBlockHeight == endHeight && cs.blockStore.Height() >= endHeight {
+			// The block for endHeight is committed, but its #ENDHEIGHT marker never
+			// reached the WAL: we crashed in finalizeCommit between SaveBlock and
+			// WriteSync(EndHeightMessage), and the ABCI handshake finished the block.
+			// Without the marker the messages of csHeight could never be replayed:
+			// after another crash we would be unable to re-sign what we already
+			// signed for this height. Write the marker now, before anything of
+			// csHeight is written.
+			cs.Logger.Info("Replay: WAL lacks #ENDHEIGHT for the last committed block; writing it", "height", endHeight)
+			if err := cs.wal.WriteSync(EndHeightMessage{endHeight}); err != nil {
+				return fmt.Errorf("failed to write #ENDHEIGHT %d to the WAL: %w", endHeight, err)
+			}
+			return nil
+		}
 		return fmt.Errorf("cannot replay height %d. WAL does not contain #ENDHEIGHT for %d", csHeight, endHeight)
 	}
 	defer gr.Close()
